@@ -259,6 +259,8 @@ def section_histories(ctx) -> list:
                         f'{c["cmd"]} ended in {c["status"]}: {c["resp"][:120]} {c.get("exc")}',
                         {'layout': r['layout'], 'history': r['history'], 'crossfs': r['crossfs']},
                         {'kind': kind})
+        for clause, text, obs in MM.reference_failures(r):
+            ctx.failure(clause, text, {'layout': r['layout'], 'history': r['history']}, obs)
         case, unknown = MM.history_case(r)
         if unknown and not bye:
             ctx.disagreement('history', {'what': 'filesystem call outside the modelled paths',
@@ -321,6 +323,8 @@ def section_crashes(ctx) -> None:
         if any(c['status'] in ('BYE', 'NONE', 'BAD') for c in ref['cmds']):
             continue          # reported by section_histories' monitors
         ok = True
+        for clause, text, obs in MM.reference_failures(r):
+            ctx.failure(clause, text, {'layout': r['layout'], 'history': r['history']}, obs)
         for kl in r['kills']:
             kills += 1
             ctx.count(('kill', r['layout'], json.dumps(r['history']), kl['k']))
